@@ -696,12 +696,13 @@ fn trace_obs(st: &mut St, obs: &mut Vec<Value>) {
                 old,
                 new,
                 site,
+                instance,
             } => {
                 let site = site
                     .rsplit_once("/src/")
                     .map(|x| x.1.to_string())
                     .unwrap_or(site);
-                obs.push(json!({"k":"tr","pid":pid,"tid":tid,"old":old,"new":new,"site":site}));
+                obs.push(json!({"k":"tr","pid":pid,"tid":tid,"old":old,"new":new,"site":site,"inst":instance}));
             }
             verif::Obs::Ptr { pid, old, new } => {
                 obs.push(json!({"k":"ptr","pid":pid,"old":old,"new":new}));
